@@ -169,7 +169,7 @@ impl Gen {
             let f = self.filler(n, cat);
             return format!("{}{}", tok, f);
         }
-        if self.allow_long && w == 0 && matches!(cat, None | Some("Text")) && self.rng.chance(8) {
+        if self.allow_long && w == 0 && matches!(cat, None | Some("Text")) && self.rng.chance(12) {
             self.serial += 1;
             let len = *self.rng.pick(&[65535u32, 65536, 65537, 65535 + 4096, 131072, 70000]) + if self.rng.chance(500) { 0 } else { self.rng.below(3000) as u32 };
             return long_string(self.serial, len);
@@ -217,6 +217,20 @@ impl Gen {
     fn gen_value(&mut self, c: &ColSpec, key_bias: bool) -> Val {
         if c.nullable && self.rng.chance(if key_bias { 60 } else { 150 }) {
             return Val::Null;
+        }
+        // a foreign-key column mostly holds values of the column it refers to
+        if let Some((t, n)) = &c.fk {
+            if self.rng.chance(600) {
+                if let Some(pt) = self.model.tables.get(t) {
+                    let ci = (*n as usize).saturating_sub(1);
+                    if ci < pt.cols.len() && !pt.rows.is_empty() {
+                        let v = pt.rows[self.rng.usize_below(pt.rows.len())][ci].clone();
+                        if value_valid(c, &v) {
+                            return v;
+                        }
+                    }
+                }
+            }
         }
         match c.ty {
             CType::I16 | CType::I32 => {
@@ -307,8 +321,14 @@ impl Gen {
                 }
             }
         }
-        if self.rng.chance(60) {
-            c.fk = Some(("Other".to_string(), 1 + self.rng.below(3) as i32));
+        if c.is_str() && c.enums.is_empty() && self.rng.chance(50) {
+            // a range is stored for any column; it constrains integers only
+            c.range = Some(*self.rng.pick(&[(-5, 100), (1, 10), (0, 0)]));
+        }
+        if self.rng.chance(90) {
+            let ts = self.user_plain_tables();
+            let target = if !ts.is_empty() && self.rng.chance(600) { self.rng.pick(&ts).clone() } else { "Other".to_string() };
+            c.fk = Some((target, 1 + self.rng.below(3) as i32));
         }
         c
     }
@@ -457,7 +477,9 @@ impl Gen {
     /// A row whose strings all exist already (a pure reference-count bump).
     fn gen_row_reusing(&mut self, t: &TableM) -> Vec<Val> {
         let mut pool: Vec<String> = Vec::new();
-        for (_, tm) in self.model.tables.iter().filter(|(_, x)| !x.catalog) {
+        // strings of user rows and of the catalog itself (table, column and
+        // category names, enumeration sets): all live in the same pool
+        for (_, tm) in self.model.tables.iter() {
             for r in tm.rows.iter().take(40) {
                 for v in r.iter() {
                     if let Val::Str(s) = v {
@@ -923,7 +945,7 @@ impl Gen {
             _ => *self.rng.pick(&[CloseMode::IntoInner, CloseMode::Drop, CloseMode::FlushDrop, CloseMode::FlushCrash]),
         };
         let mut edits = Vec::new();
-        if matches!(self.profile, Profile::Streams | Profile::Foreign) && self.rng.chance(150) {
+        if matches!(self.profile, Profile::Streams | Profile::Foreign | Profile::ReadOnly) && self.rng.chance(150) {
             edits.push(Edit::AddSignature(self.rng.chance(500)));
             self.model.sig = true;
         }
@@ -1349,7 +1371,7 @@ impl Gen {
             self.macro_dotted_names();
             return;
         }
-        if matches!(self.profile, Profile::Clean | Profile::Benign | Profile::Crash | Profile::Reject) && self.rng.chance(35) {
+        if matches!(self.profile, Profile::Clean | Profile::Benign | Profile::Crash | Profile::Reject | Profile::Schema) && self.rng.chance(35) {
             self.macro_quiet_bump();
             return;
         }
@@ -1694,7 +1716,7 @@ pub fn generate(property: &str, profile: Profile, seed: u64, run: u64) -> Trace 
         table_seq: 0,
         weights,
         max_rows_per_insert: *rng.pick(&[2usize, 5, 12, 40]),
-        allow_long: rng.chance(120),
+        allow_long: rng.chance(200),
         explicit_stream_flush: profile == Profile::Script,
         handles_open: Vec::new(),
         avoid_delete_under_handle: rng.chance(900),
@@ -1803,7 +1825,7 @@ pub fn gen_corruption(rng: &mut Prng) -> CorruptSpec {
         31..=58 => CorruptSpec::Cell(rng.next_u64() as u32, rng.next_u64() as u32, rng.below(4) as u8),
         59..=70 => CorruptSpec::StreamLen(rng.next_u64() as u32, rng.below(5) as u8, rng.next_u64() as u32),
         71..=74 => CorruptSpec::PoolHeader(rng.below(4) as u8),
-        75..=84 => CorruptSpec::PoolEntry(rng.next_u64() as u32, rng.below(5) as u8),
+        75..=84 => CorruptSpec::PoolEntry(rng.next_u64() as u32, rng.below(6) as u8),
         85..=92 => CorruptSpec::PropSet(rng.below(18) as u8, rng.next_u64() as u32),
         93..=94 => CorruptSpec::DataHighBit(rng.next_u64() as u32),
         95..=96 => CorruptSpec::AddEntry(rng.below(8) as u8),
